@@ -22,7 +22,7 @@ BASES = ('std::slice::Iter', 'std::slice::IterMut', 'std::vec::IntoIter', 'std::
 CONSUMERS = ('any', 'all', 'find', 'position', 'count', 'fold', 'for_each', 'try_fold')
 # consumers the interpreter still summarises as quantifier / fold terms on plain slice iterators (rules written against
 # those terms); everything else is lowered
-SUMMARISED = {'any', 'all', 'fold'}
+SUMMARISED = {'fold'}
 SIMPLE = re.compile(r"^(std::iter::Copied<)?std::slice::Iter<'[_a-z]*, .*>$")
 _CONS_RE = re.compile(r'^(?:std::iter::Iterator::|<.* as std::iter::Iterator>::)(%s)$' % '|'.join(CONSUMERS))
 
@@ -122,11 +122,9 @@ def closure_of_operand(fn, op):
 
 
 def next_callee(crate, iter_ty):
-    head = split_generics(iter_ty)[0]
-    for p in crate.fns:
-        if p.endswith(' as std::iter::Iterator>::next') and p.startswith('<' + head) and p[len(head) + 1] in '< ':
-            return {'callee': 'std::iter::Iterator::next', 'resolved': p, 'local': True, 'generics': [iter_ty], 'res_kind': 'AssocFn',
-                    'func': None, 'arg_tys': ['&mut ' + iter_ty]}
+    """`next` of the consumed iterator.  A user-defined iterator is consumed as the abstract stream of its items
+    (items(it)[0], items(it)[1], ..), exactly as a `for` loop over an `impl Iterator` argument is; what its own `next`
+    yields is the business of the rules about that iterator."""
     return {'callee': 'std::iter::Iterator::next', 'resolved': 'std::iter::Iterator::next', 'local': False, 'generics': [iter_ty],
             'res_kind': 'AssocFn', 'func': None, 'arg_tys': ['&mut ' + iter_ty]}
 
@@ -290,11 +288,15 @@ def lower_call(fn, crate, bi, cons):
         return ['move', P(B.local('&mut ' + tys[-1], None), '&mut ' + tys[-1])]
 
     H = B.block()
-    blk['stmts'] = blk['stmts'] + pre
-    blk['term'] = ['goto', H]
+    itplace = P(IT, inner_ty, [['deref']]) if by_ref else P(IT, inner_ty)
+    # an opaque (user-defined) iterator object is viewed as the stream of its items before the loop starts
+    R0 = B.local('&mut ' + inner_ty, None)
+    U0 = B.local('()', None)
+    blk['stmts'] = blk['stmts'] + pre + [B.assign(P(R0, '&mut ' + inner_ty), ['ref', True, itplace])]
+    asit = {'callee': '#as_iter', 'resolved': '#as_iter', 'local': False, 'generics': [inner_ty], 'res_kind': None, 'func': None, 'arg_tys': ['&mut ' + inner_ty]}
+    blk['term'] = B.call(asit, [['move', P(R0, '&mut ' + inner_ty)]], P(U0, '()'), H)
     H2, BODY, DONE, UNREACH = B.block(), B.block(), B.block(), B.block()
     fn.blocks[UNREACH]['term'] = ['unreachable']
-    itplace = P(IT, inner_ty, [['deref']]) if by_ref else P(IT, inner_ty)
     fn.blocks[H]['stmts'] = [B.assign(P(REF, '&mut ' + inner_ty), ['ref', True, itplace])]
     fn.blocks[H]['term'] = B.call(next_callee(crate, inner_ty), [['move', P(REF, '&mut ' + inner_ty)]], P(OPT, 'std::option::Option<%s>' % item_ty), H2)
     fn.blocks[H2]['stmts'] = [B.assign(P(DIS, 'isize'), ['discr', P(OPT, 'std::option::Option<%s>' % item_ty)])]
